@@ -76,13 +76,16 @@ class PropertyCheck:
         import gen
         from common import hx
         cases = []
-        for _ in range(n):
-            t = gen.zoo(self.rng)
+        for i in range(n + max(40, n // 3)):
+            # composed drawings, then drawings at the ends of the size axes (gen.extremes)
+            t = gen.zoo(self.rng) if i < n else gen.extremes(self.rng)
             if self.rng.chance(1, 2):
                 cases.append((t, backend.Settings(), self.rng.choice(["to_svg", "compressed"])))
             else:
                 cases.append((t, backend.Settings(scale=self.rng.choice([8, 1, 0.5, 10]), b=self.rng.chance(1, 2),
-                                                  s=self.rng.chance(1, 2), d=self.rng.chance(1, 2)), "settings"))
+                                                  s=self.rng.chance(1, 2), d=self.rng.chance(1, 2)),
+                              # "reuse": one CellBuffer rendered with other settings first (public API), then with these
+                              "reuse" if self.rng.chance(1, 3) else "settings"))
         dis = []
         for c, r in zip(cases, backend.run_full(cases)):
             self.evaluations += 1
@@ -94,6 +97,10 @@ class PropertyCheck:
                                         str(backend.first_difference(r["impl"], r["model"]))[:600], ""))
         self.count("zoo_cases", len(cases))
         return dis
+
+    def extreme_input(self, text):
+        """adapt (or drop: None) an extreme drawing for this property's oracle"""
+        return text
 
     # ---- helpers --------------------------------------------------------------
     # thorough-tier multiplier for case counts (values of 2000 and more are counts in every check)
@@ -209,6 +216,13 @@ def run_check(check_cls, argv):
                         suspects.append(t)
                 if suspects and hasattr(chk, "oracle_on_texts"):
                     failures = list(failures) + list(chk.oracle_on_texts(suspects[:80]))
+                # drawings at the ends of the size axes go to the property's own oracle as well
+                if chk.zoo and hasattr(chk, "oracle_on_texts"):
+                    import gen
+                    ext = [chk.extreme_input(gen.extremes(chk.rng)) for _ in range(chk.scale(60, 600))]
+                    ext = [t for t in ext if t is not None]
+                    chk.count("extreme_inputs", len(ext))
+                    failures = list(failures) + list(chk.oracle_on_texts(ext))
                 # differences between the model side and the implementation noticed while searching
                 disagreements = list(disagreements) + list(getattr(chk, "late_disagreements", []))
             except Exception:
